@@ -202,7 +202,7 @@ def run_property(pid, spec, tier, seed):
                     inconclusive.append((o, 'vacuity twin not refuted'))
                     continue
                 discharged += 1
-                if oks or r.get('nontrivial_witness'):
+                if oks or r.get('nontrivial_witness') or o.get('nontrivial_witness'):
                     nontrivial += 1
         for o in obligations:
             r = results[o['name']]
